@@ -32,7 +32,7 @@ let plan_case line =
   let rd_sizer () = let a = ni t in let b = ni t in let c = ni t in
     { sz_target = n_of_int a; sz_min = n_of_int b; sz_max = n_of_int c } in
   let szt = rd_sizer () in let szd = rd_sizer () in
-  let nu = ni t in let used = ntimes nu (fun () -> ni t) in
+  let nu = ni t in let used = ntimes nu (fun () -> let tp = ni t in let i = ni t in (tp, i)) in
   let ne = ni t in let existing = ntimes ne (fun () -> let p = ni t in let s = ni t in (p, s)) in
   let nf = ni t in
   let files = ntimes nf (fun () ->
@@ -43,7 +43,10 @@ let plan_case line =
   let o = { o_now = z_of_int now; o_keep_pack = z_of_int keep_pack; o_keep_delete = z_of_int keep_delete;
             o_cacheable_only = cacheable_only; o_unc = unc; o_all = all; o_no_resize = no_resize; o_instant = instant;
             o_max_unused = mu; o_max_repack = mr; o_sz_tree = szt; o_sz_data = szd } in
-  let usedn = List.map n_of_int used in
+  let bt tp = if tp = 0 then Tree else Data in
+  let key (tp, i) = used_key (bt tp) (n_of_int i) in
+  let typed = used_key Tree (n_of_int 1) <> used_key Data (n_of_int 1) in
+  let usedn = List.map key used in
   let exn = List.map (fun (p, s) -> (n_of_int p, n_of_int s)) existing in
   (* the packer of the abstract execution: one new pack per call, ids 9000001, 9000002 *)
   let ctr = ref 9000000 in
@@ -59,8 +62,9 @@ let plan_case line =
     let rw = List.map (fun n -> string_of_int fids.(int_of_nat n)) pl.pl_rewritten in
     let un = List.sort compare (List.map (fun (p, s) -> (int_of_n p, int_of_n s)) pl.pl_unref) in
     let un = List.map (fun (p, s) -> Printf.sprintf "%d:%d" p s) un in
-    let left = List.filter (fun x -> pl.pl_left (n_of_int x) <> None) (List.sort_uniq compare used) in
-    let left = List.map string_of_int left in
+    let left = List.filter (fun k -> pl.pl_left (key k) <> None) (List.sort_uniq compare used) in
+    let left = if typed then List.map (fun (tp, i) -> Printf.sprintf "%d:%d" tp i) left
+               else List.sort_uniq compare (List.map (fun (_, i) -> Printf.sprintf "x:%d" i) left) in
     let st = Array.make 15 0 in
     List.iter (fun p ->
       let pi = info_of p in
